@@ -423,4 +423,4 @@ def bulk_discard_rule(F, R):
                    "stays open with no frame, and invoking it later panics the host ('Failed to find an open continuation "
                    "on the stack')" % (fn.short(), what, fn.blocks[i].get("line", "?")), fn.loc(fn.blocks[i].get("line")),
                    sample=True)
-    R.floor("C08.f", "bulk discards of the frame stack", n, 2)
+    R.floor("C08.f", "bulk discards of the frame stack", n, 2 if "sync" in (F.meta.get("features") or []) else 1)
